@@ -94,6 +94,9 @@ pub struct Session {
     pub fuel: u64,
     /// Idle run-loop iterations (no instruction, no command) allowed in a row.
     pub max_idle: u64,
+    /// Command lines (accepted or rejected) the session may read; a finite script cannot yield
+    /// more. `u64::MAX`: unbounded.
+    pub max_commands: u64,
     pub log_exec: bool,
 }
 
@@ -109,6 +112,10 @@ pub enum End {
     KeysExhausted,
     /// The source was rejected (diagnostic text).
     AsmError(String),
+    /// The run did not come back within the wall-clock hang guard: lace is looping somewhere the
+    /// simulated clock cannot see (neither a run-loop tick nor a command line). The worker
+    /// process is abandoned afterwards.
+    Hang,
 }
 
 impl End {
@@ -121,6 +128,7 @@ impl End {
             End::Spin => "spin".into(),
             End::KeysExhausted => "keys-exhausted".into(),
             End::AsmError(_) => "asm-error".into(),
+            End::Hang => "hang".into(),
         }
     }
     /// Process exit status the user would see (101 for a panic).
@@ -156,6 +164,15 @@ pub struct Outcome {
 }
 
 static PANIC_MESSAGE: Mutex<Option<String>> = Mutex::new(None);
+
+pub const HANG_GUARD_S: u64 = 30;
+
+/// Set once a run thread had to be abandoned: this process must not execute further runs.
+pub static POISONED: std::sync::atomic::AtomicBool = std::sync::atomic::AtomicBool::new(false);
+
+pub fn poisoned() -> bool {
+    POISONED.load(std::sync::atomic::Ordering::SeqCst)
+}
 
 /// Route panic messages into `PANIC_MESSAGE` instead of stderr. Typed unwinds raised with
 /// `resume_unwind` never reach the hook.
@@ -234,6 +251,7 @@ fn thread_body(session: &Session) -> ThreadResult {
     sim.stdin = session.stdin.clone();
     sim.fuel = session.fuel;
     sim.max_idle_ticks = session.max_idle;
+    sim.max_commands = session.max_commands;
     sim.log_exec = session.log_exec;
     sim.transport = match &session.debug {
         Some(DebugCfg {
@@ -321,22 +339,39 @@ pub fn run_session(capture: &Capture, session: &Session) -> Outcome {
     *PANIC_MESSAGE.lock().unwrap() = None;
 
     let session_ref = session.clone();
+    let (tx, rx) = std::sync::mpsc::channel();
     let handle = std::thread::Builder::new()
         .name("sim-run".into())
         .stack_size(16 << 20)
-        .spawn(move || thread_body(&session_ref))
+        .spawn(move || {
+            let result = catch_unwind(AssertUnwindSafe(|| thread_body(&session_ref)));
+            let _ = tx.send(result);
+        })
         .expect("spawn");
-    let result = match handle.join() {
-        Ok(result) => result,
-        Err(payload) => ThreadResult {
-            end: classify(payload),
-            events: Vec::new(),
-            load: None,
-            load_breakpoints: None,
-            fin: None,
-            debugger_attached: false,
-            sim: None,
-        },
+    let empty = |end: End| ThreadResult {
+        end,
+        events: Vec::new(),
+        load: None,
+        load_breakpoints: None,
+        fin: None,
+        debugger_attached: false,
+        sim: None,
+    };
+    // The hang guard is the only wall-clock read that can influence a result; it turns an
+    // endless loop into a reported outcome instead of a stuck check.
+    let result = match rx.recv_timeout(std::time::Duration::from_secs(HANG_GUARD_S)) {
+        Ok(Ok(result)) => {
+            let _ = handle.join();
+            result
+        }
+        Ok(Err(payload)) => {
+            let _ = handle.join();
+            empty(classify(payload))
+        }
+        Err(_) => {
+            POISONED.store(true, std::sync::atomic::Ordering::SeqCst);
+            empty(End::Hang)
+        }
     };
     let (stdout, stderr) = capture.take();
 
